@@ -4,7 +4,7 @@
     iteration; signals, the kernel's pipe semantics and std's EINTR handling are runtime
     facts exercised through the fault-injection shim, not proved. *)
 From TucModel Require Import Base.Bytes Base.ListX Model.Bounds Model.Scan Model.Opt Model.CutBytes
-     Model.CutStr Model.FastLane Model.Main Model.IO Proofs.C10 Proofs.C14.
+     Model.CutStr Model.FastLane Model.Stream Model.Main Model.IO Proofs.C04 Proofs.C10 Proofs.C10Stream Proofs.C14 Proofs.C14More.
 
 Theorem C14_delivered_is_a_prefix :
   forall (r : outcome) (read_ok : bool) (wk : option nat),
@@ -47,9 +47,47 @@ Theorem C14_failing_cut_is_reported :
   forall (pre : bytes) (read_ok : bool) (wk : option nat), fst (envelope (Fail pre) read_ok wk) = 1.
 Proof. exact failing_cut_is_reported. Qed.
 
+(** what a failing run has delivered, exactly: the outputs - complete and unmodified - of the
+    records before the first failing one, nothing of that record or of later ones; and a
+    successful run has delivered the outputs of all the records, in order.  General path
+    (also -c, --json, -e) and -M; the fast lane equals the general path (C02). *)
+Theorem C14_failure_delivers_exactly_the_earlier_records :
+  forall (o : opt) (input pre : bytes),
+    read_and_cut_str o input = Some (Fail pre) <->
+    exists rs1 r rs2 outs, records (o_eol o) input = rs1 ++ r :: rs2
+                           /\ Forall2 (cut_ok (cut_str o)) rs1 outs /\ cut_str o r = Some RErr
+                           /\ pre = concat outs.
+Proof. exact general_failure_delivers_earlier_records. Qed.
+
+Theorem C14_success_delivers_every_record :
+  forall (o : opt) (input out : bytes),
+    read_and_cut_str o input = Some (Done out) <->
+    exists outs, Forall2 (cut_ok (cut_str o)) (records (o_eol o) input) outs /\ out = concat outs.
+Proof. exact general_success_delivers_all_records. Qed.
+
+Theorem C14_fixed_memory_failure_delivers_exactly_the_earlier_records :
+  forall (so : sopt) (input pre : bytes),
+    no_adjacent_fillers (s_items so) ->
+    (run_stream_whole so input = Fail pre <->
+     exists rs1 r rs2 outs, records (s_eol so) input = rs1 ++ r :: rs2
+                            /\ Forall2 (cut_ok (stream_cut so)) rs1 outs /\ stream_cut so r = Some RErr
+                            /\ pre = concat outs).
+Proof. exact fixed_memory_failure_delivers_earlier_records. Qed.
+
+Theorem C14_fixed_memory_success_delivers_every_record :
+  forall (so : sopt) (input out : bytes),
+    no_adjacent_fillers (s_items so) ->
+    (run_stream_whole so input = Done out <->
+     exists outs, Forall2 (cut_ok (stream_cut so)) (records (s_eol so) input) outs /\ out = concat outs).
+Proof. exact fixed_memory_success_delivers_all_records. Qed.
+
 Print Assumptions C14_delivered_is_a_prefix.
 Print Assumptions C14_success_means_everything_delivered.
 Print Assumptions C14_a_fault_is_never_a_success.
 Print Assumptions C14_failing_record_keeps_earlier_records.
 Print Assumptions C14_failing_record_keeps_earlier_records_fast.
 Print Assumptions C14_failing_cut_is_reported.
+Print Assumptions C14_failure_delivers_exactly_the_earlier_records.
+Print Assumptions C14_success_delivers_every_record.
+Print Assumptions C14_fixed_memory_failure_delivers_exactly_the_earlier_records.
+Print Assumptions C14_fixed_memory_success_delivers_every_record.
